@@ -89,12 +89,13 @@ example : validLevels 0 0 (innerLevels
   decide
 
 /-- **selection_exact**: one `refine()` call — the literal cursor loop over `curContainer`, `searchPosition`,
-`startNewObjects`, the deferred removal and the sort — started from reset cursors does not fail, leaves the
+`startNewObjects`, the deferred removal and the sort — started from ANY `startNewObjects` (0 after a `refine()`, the
+number of objects after an evaluation), empty `popArray` and `searchPosition = 0`, does not fail, leaves the
 cursors reset, refines in strictly ascending order (hence once each) exactly the positions `(d, i)` whose benefit
 is `≥ margin · max benefit`, and leaves in every container the old list with exactly those objects replaced by
 their children -/
 theorem selection_exact (m : Meta) (bens : List (List Rat)) (margin : Rat)
-    (hcur : m.cur = 0) (hreset : ∀ c ∈ m.conts, c.Reset)
+    (hcur : m.cur = 0) (hreset : ∀ c ∈ m.conts, c.Ready)
     (htil : ∀ c ∈ m.conts, ∃ a lo b hi, Til a lo b hi c.objs) :
     ∃ m' ps, m.refineStep bens margin = some (m', ps) ∧
       m'.cur = 0 ∧ m'.conts.length = m.conts.length ∧
@@ -138,6 +139,22 @@ theorem raiseLoop_terminates (lmax : List Int) (lmin : Int) (s : CS) (hs : Schem
   raiseFuel_enough lmax lmin s hs hlm
 
 example : (raiseLoop [4, 2] 1 (raiseFuel [4, 2] 1 2) (CS.init 2 2 1)).2 = true := by decide
+
+/-- **evaluation between two `refine()` calls**: the cursor effect of `evaluate_operation` (`clear_new_objects()`,
+repository commit 48b37d3) leaves the object lists, `lmax` and the scheme untouched and has no influence on the next
+`refine()`; so every theorem about `DW.step` / `DW.run` holds verbatim for the flow evaluate → refine → evaluate → … -/
+theorem evaluate_transparent (st : DW) (bens : List (List Rat)) (margin : Rat) (rebalancing : Bool)
+    (dec : Nat → Nat → Nat → Bool) :
+    st.evaluate.step bens margin rebalancing dec = st.step bens margin rebalancing dec ∧
+    st.evaluate.m.conts.map (·.objs) = st.m.conts.map (·.objs) ∧ st.evaluate.lmax = st.lmax ∧
+    st.evaluate.cs = st.cs ∧
+    ∀ c ∈ st.evaluate.m.conts, c.startNew = c.objs.length :=
+  ⟨step_evaluate st bens margin rebalancing dec, by simp [DW.evaluate, Meta.clearNew, List.map_map, Function.comp_def],
+   rfl, rfl, by
+     intro c hc
+     simp only [DW.evaluate, Meta.clearNew, List.mem_map] at hc
+     obtain ⟨c0, _, rfl⟩ := hc
+     rfl⟩
 
 /-- **every refinement history**: no `refine()` call of any history fails, every reached state is well formed -/
 theorem reachable_wf (a b : List Rat) (lmax0 : Int) : ∀ (ins : List StepIn) (st : DW), DWWF a b lmax0 st →
